@@ -40,6 +40,15 @@ class _RabbitConsumer(ConsumerT):
         self.__is_consuming: bool = False
 
     async def consume(self) -> tuple[RoutingKeyT, str, ParametersT]:
+        while True:
+            key, payload, params = await self.__next_message()
+            # the message has waited in the local queue: its ttl may have run out in the meantime
+            if params.is_overdue and self.category == MessageCategory.NORMAL:
+                await self.broker.nack(key)
+                continue
+            return key, payload, params
+
+    async def __next_message(self) -> tuple[RoutingKeyT, str, ParametersT]:
         # fast-path without task creation
         if not self.queue.empty():
             return self.queue.get_nowait()
